@@ -138,9 +138,19 @@ func evalC10(h *hz.H, sp *enum.Space, c enum.Case, b bounds, replayDet *bool, au
 		viol("reset", fmt.Sprintf("proto.Reset(%s) left %s (size %d, panic %v)", sp.Label(c), enum.Canon(enum.Slow(g3), true), proto.Size(g3), p))
 		return
 	}
-	if err := proto.CheckInitialized(g); err != nil {
-		viol("checkinitialized", fmt.Sprintf("proto.CheckInitialized(%s) = %v", sp.Label(c), err))
-		return
+	// CheckInitialized, and the error-ness of the non-partial Marshal that ends in the same check, as for the reference
+	// (proto3 messages have no required fields of their own, but they can reach proto2 messages that do)
+	{
+		refErr := proto.CheckInitialized(d)
+		var err, merr error
+		if p := hz.Catch(func() { err = proto.CheckInitialized(g); _, merr = proto.Marshal(g) }); p != nil || (err == nil) != (refErr == nil) || (merr == nil) != (refErr == nil) {
+			viol("checkinitialized", fmt.Sprintf("proto.CheckInitialized(%s) = %v, proto.Marshal err = %v (panic %v); the reference says %v", sp.Label(c), err, merr, p, refErr))
+			return
+		}
+		if gc := proto.Clone(g); (proto.CheckInitialized(gc) == nil) != (refErr == nil) {
+			viol("checkinitialized", fmt.Sprintf("proto.CheckInitialized(Clone(%s)) = %v; the reference says %v", sp.Label(c), proto.CheckInitialized(gc), refErr))
+			return
+		}
 	}
 	// JSON and text codecs (same process: protobuf-go's output randomisation is identical on both sides)
 	type codec struct {
